@@ -1393,3 +1393,107 @@ def check_interval_guard_units(ix, rep, rule='R-GUARD-DOM'):
                 rep.fail(rule, f.module.rel, f.qual, slot, 'with %s the guard compares %r with %r; the monitors read the bounds as begin*U[%s] and end*U[%s] (B/E = unit written on the '
                          'lower/upper bound, D = default unit): an interval whose lower bound exceeds its upper bound is accepted, or a legal one rejected' % (case, l, r, ub, ue), guard.lineno)
     return n
+
+
+def _exit_dominated(cfg, dom, pred):
+    """every normal exit of the function (explicit return or falling off the end) is dominated by a statement satisfying pred;
+    returns the offending ast node (or the function) of the first exit that is not"""
+    for p in cfg.pred[cfg.exit]:
+        if p not in cfg.reachable():
+            continue
+        if not any(cfg.stmt[d] is not None and pred(cfg.stmt[d]) for d in dom[p]):
+            return cfg.stmt[p] if cfg.stmt[p] is not None else cfg.func
+    return None
+
+
+def check_parse_every_path(ix, rep, rule='R-EVERYPATH'):
+    """"exactly the language" is decided by the recogniser; a parse() that can return without running it accepts whatever text it was
+    given on that path (a memo on part of the input, an early return for a text 'already seen').  Every normal exit of
+    specification.parse() is dominated by the call of ast.parse(); every normal exit of ast.parse() by the entry rule of the
+    generated parser and by the visit of its result."""
+    n = 0
+    ltl, stl, absast = parser_classes(ix)
+    spec_base = ix.find_class('rtamt.spec.abstract_specification', 'AbstractSpecification')
+    if spec_base is None:
+        raise AnalysisError('AbstractSpecification vanished')
+    owners = [spec_base] + [c for c in ix.subclasses_of(spec_base) if 'parse' in c.methods]
+    seen = set()
+    for c in owners:
+        f = c.methods.get('parse')
+        if f is None or id(f) in seen:
+            continue
+        seen.add(id(f))
+        missing = ix.unimportable(c.module)
+        if missing:
+            rep.note('%s: not analysed, the module imports %s, which does not exist (it cannot be imported)' % (c.module.rel, missing))
+            continue
+        rep.analysed(f)
+        cfg = flow.CFG(f.node)
+        dom = cfg.dominators()
+
+        def forwards(st):
+            return not isinstance(st, (ast.If, ast.For, ast.While, ast.Try)) and any(
+                isinstance(x, ast.Call) and isinstance(x.func, ast.Attribute) and x.func.attr == 'parse'
+                and (ast.unparse(x.func.value) == 'self.ast' or (isinstance(x.func.value, ast.Call) and ast.unparse(x.func.value.func) == 'super'))
+                for x in ast.walk(st))
+        bad = _exit_dominated(cfg, dom, forwards)
+        n += 1
+        if bad is None:
+            rep.ok(rule, f.module.rel, f.qual, 'parse:forwards', 'every normal exit passes through self.ast.parse()', f.node.lineno)
+        else:
+            rep.fail(rule, f.module.rel, f.qual, 'parse:forwards', 'parse() can return without calling self.ast.parse(): on that path the text of the specification (and of the '
+                     'sub-specifications added to it) is never shown to the recogniser, so an illegal text is accepted silently', getattr(bad, 'lineno', f.node.lineno))
+    f = absast.methods.get('parse')
+    rep.analysed(f)
+    cfg = flow.CFG(f.node)
+    dom = cfg.dominators()
+    parser_name = None
+    for st in ast.walk(f.node):
+        if isinstance(st, ast.Assign) and isinstance(st.targets[0], ast.Name) and isinstance(st.value, ast.Call) and ast.unparse(st.value.func) == 'self.antrlParserType':
+            parser_name = st.targets[0].id
+
+    def runs_parser(st):
+        return not isinstance(st, (ast.If, ast.For, ast.While, ast.Try)) and any(
+            isinstance(x, ast.Call) and isinstance(x.func, ast.Attribute) and isinstance(x.func.value, ast.Name) and x.func.value.id == parser_name
+            and not x.func.attr.startswith(('_', 'remove', 'add')) for x in ast.walk(st))
+
+    def visits(st):
+        return not isinstance(st, (ast.If, ast.For, ast.While, ast.Try)) and any(
+            isinstance(x, ast.Call) and ast.unparse(x.func) in ('self.visit', 'self.visitSpecification', 'self.visitSpecification_file') for x in ast.walk(st))
+    for slot, pred, what in (('parse:recogniser', runs_parser, 'running the entry rule of the generated parser'),
+                             ('parse:builder', visits, 'visiting the parse tree (the declaration and reference checks live in the builder)')):
+        bad = _exit_dominated(cfg, dom, pred)
+        n += 1
+        if bad is None:
+            rep.ok(rule, f.module.rel, f.qual, slot, 'every normal exit passes through it', f.node.lineno)
+        else:
+            rep.fail(rule, f.module.rel, f.qual, slot, 'AbstractAst.parse() can return without %s: the text is accepted unchecked on that path' % what,
+                     getattr(bad, 'lineno', f.node.lineno))
+    # what is shown to the recogniser is the whole text: the stream is built from an expression that contains both self.modular_spec and self.spec
+    stream = None
+    for st in ast.walk(f.node):
+        if isinstance(st, ast.Call) and ast.unparse(st.func) == 'InputStream' and st.args:
+            stream = st
+    if stream is None:
+        raise AnalysisError('%s: InputStream construction not found' % f.where)
+    from sa.rules.astpure import _root
+    srcs = set()
+    work = [stream.args[0]]
+    seen_names = set()
+    while work:
+        e = work.pop()
+        for x in ast.walk(e):
+            if isinstance(x, ast.Attribute) and isinstance(x.value, ast.Name) and x.value.id == 'self':
+                srcs.add(x.attr)
+            if isinstance(x, ast.Name) and x.id not in seen_names:
+                seen_names.add(x.id)
+                for a in ast.walk(f.node):
+                    if isinstance(a, ast.Assign) and any(isinstance(t, ast.Name) and t.id == x.id for t in a.targets):
+                        work.append(a.value)
+    n += 1
+    if {'spec', 'modular_spec'} <= srcs:
+        rep.ok(rule, f.module.rel, f.qual, 'parse:whole-text', 'the recogniser reads modular_spec + spec', stream.lineno)
+    else:
+        rep.fail(rule, f.module.rel, f.qual, 'parse:whole-text', 'the text handed to the lexer is not built from both self.modular_spec and self.spec (%s): part of what the user '
+                 'supplied is never checked' % sorted(srcs), stream.lineno)
+    return n
